@@ -5,7 +5,7 @@ CHECK = {
     # Pose3D::operator* needs SmartRotation3D; everything else it uses is header-only
     "srcs": GEOMETRY + ["src/transform/SmartRotation3D.cpp"],
     "flavours": ["asan"],
-    "quick": {"shards": 4, "timeout": 600},
+    "quick": {"shards": 8, "timeout": 600},
     "thorough": {"shards": 16, "timeout": 3600},
     "required_categories": ["reduce", "se3", "ellipse",
                             "reduce_cov_spd", "reduce_cov_rankdef", "reduce_cov_illcond", "reduce_cov_givens",
